@@ -215,6 +215,13 @@ int main(int argc, char** argv) {
             return o.str();
         }
         if (w[0] == "keys") return "keys=" + show_keys(st->wpa);
+        if (w[0] == "aes" && w.size() == 3) {       // OpenSSL AES-128 (validates the Lean AES used to run the CCMP model)
+            bytes k, b;
+            if (!parse_hex(w[1], k) || k.size() != 16 || !parse_hex(w[2], b) || b.size() != 16) return "bad-op";
+            AES_KEY ks; AES_set_encrypt_key(k.data(), 128, &ks);
+            uint8_t o[16]; AES_encrypt(b.data(), o, &ks);
+            return "aes " + to_hex(o, 16);
+        }
         return "bad-op";
     });
 }
